@@ -214,6 +214,21 @@ func generatedBatchModels(r *rand.Rand) []*batchModel {
 		mk: one(func(n int) []int { return []int{n, 3} }, 1),
 		bytes: buildModel([]*onnx.NodeProto{nd("Gemm", []string{"x", "w1", "b1"}, []string{"a"}, aF("beta", 0.5)), nd("Gemm", []string{"a", "w2", "b2"}, []string{"y"}, aF("beta", 2), aF("alpha", 0.5))},
 			map[string]tensor.Tensor{"w1": f32T(r, 1, 3, 4), "b1": f32T(r, 1, 4), "w2": f32T(r, 1, 4, 2), "b2": f32T(r, 1, 2)}, []string{"x"}, []int{2}, []string{"y"})})
+	// 6a''. a divisor that is exactly zero for SOME samples: those samples get the library's result for x/0,
+	// the others are unaffected, and the batch as a whole is evaluated
+	add(&batchModel{name: "div-with-zero-divisors-in-some-samples", inputs: []string{"a", "d"}, inAxis: []int{0, 0}, outputs: []string{"y"}, outAxis: []int{0},
+		mk: func(n int, r *rand.Rand) []tensor.Tensor {
+			a, d := f32T(r, 2, n, 3), f32T(r, 2, n, 3)
+			dd := d.Data().([]float32)
+			for i := 0; i < n; i++ {
+				if r.Intn(2) == 0 {
+					dd[i*3+r.Intn(3)] = 0
+				}
+			}
+			return []tensor.Tensor{a, d}
+		},
+		bytes: buildModel([]*onnx.NodeProto{nd("Relu", []string{"a"}, []string{"t"}), nd("Div", []string{"t", "d"}, []string{"y"})},
+			nil, []string{"a", "d"}, []int{2, 2}, []string{"y"})})
 	// 6b. shapes that coincide with the batch size: x (N,1) against a weight vector (M) broadcasts to (N,M)
 	// whatever N is (N = M included); x (N,T,1) against (T)
 	for _, M := range []int{2, 3, 5} {
